@@ -158,6 +158,42 @@ def dump_text(doc, knobs):
     return bytes(world.fs["/sim/w/session.yaml"]).decode("utf-8")
 
 
+def _walk_ids(node, seen):
+    if id(node) in seen:
+        return
+    if isinstance(node, dict):
+        seen.add(id(node))
+        for val in list(node.values()):
+            _walk_ids(val, seen)
+    elif isinstance(node, list):
+        seen.add(id(node))
+        for val in node:
+            _walk_ids(val, seen)
+
+
+def merge_sources(doc):
+    """ids of the hashes that some other hash merges in through ``<<``."""
+    found = set()
+    seen = set()
+
+    def walk(node):
+        if id(node) in seen:
+            return
+        if isinstance(node, dict):
+            seen.add(id(node))
+            for _pos, src in getattr(node, "merge", None) or []:
+                found.add(id(src))
+                walk(src)
+            for val in list(node.values()):
+                walk(val)
+        elif isinstance(node, list):
+            seen.add(id(node))
+            for val in node:
+                walk(val)
+    walk(doc)
+    return found
+
+
 def merged_view(typed):
     """Typed data with every hash's pairs sorted (inheritance order is not
     part of what a reader sees)."""
@@ -768,6 +804,18 @@ class Session:
             # ruamel's in-memory view through merge keys may be stale from
             # here on; the clause is not applied to later steps either
             self.merged_clean = False
+        if "<<" in self.text and not self.cli:
+            # Deleting a hash that another hash merges in leaves the merging
+            # hash holding an orphan (ruamel keeps the reference and inlines
+            # it on dump): the document is no longer one a loader produces,
+            # and nothing that follows can be blamed on an edit.
+            sources = merge_sources(self.doc)
+            inside = set()
+            for node in _nodes:
+                _walk_ids(node, inside)
+            if sources & inside:
+                raise SessionAbort("delete of a merged-in hash (orphaned "
+                                   "merge source)")
         if self.cli:
             self.run_cli(["--change=" + path, "-D"], "C04",
                          "delete " + path)
